@@ -21,15 +21,70 @@ theorem allZero_ones (n : Nat) (h : 0 < n) : allZero (List.replicate n (1 : Rat)
 theorem restart_ok (o : O) (sh : RShape) : ResetOK sh (restart o sh) = true := by
   simp [ResetOK, restart]
 
+/-- `StepOK` = the reward has the declared length (the environment's obligation: every constructor passes the
+reward through) + `DiscOK` (what the constructors build) -/
+theorem stepOK_iff (sh : RShape) (truncOK : Bool) (ts : TimeStep O) :
+    StepOK sh truncOK ts = true ↔ (ts.reward.length = sh.size ∧ DiscOK sh truncOK ts = true) := by
+  simp only [StepOK, DiscOK, Bool.and_eq_true, beq_iff_eq]
+  constructor
+  · rintro ⟨⟨⟨⟨⟨a, b⟩, c⟩, d⟩, e⟩, f⟩; exact ⟨b, ⟨⟨⟨⟨a, c⟩, d⟩, e⟩, f⟩⟩
+  · rintro ⟨b, ⟨⟨⟨⟨a, c⟩, d⟩, e⟩, f⟩⟩; exact ⟨⟨⟨⟨⟨a, b⟩, c⟩, d⟩, e⟩, f⟩
+
+/-! ### what the constructors do with `shape` (jumanji/types.py): no hypothesis on the reward -/
+
+/-- `restart`: reward AND discount are built from `shape` -/
+theorem restart_shape (o : O) (sh : RShape) :
+    (restart o sh).reward.length = sh.size ∧ (restart o sh).discount.length = sh.size := by
+  simp [restart, zerosR, onesR]
+/-- `termination`: reward passed through, discount = zeros(shape) -/
+theorem termination_shape (r : List Rat) (o : O) (sh : RShape) :
+    (termination r o sh).reward = r ∧ (termination r o sh).discount = zerosR sh ∧
+    (termination r o sh).discount.length = sh.size := by
+  simp [termination, zerosR]
+/-- `transition` / `truncation` without `discount=`: reward passed through, discount = ones(shape) -/
+theorem transition_shape (r : List Rat) (o : O) (sh : RShape) :
+    (transition r o none sh).reward = r ∧ (transition r o none sh).discount = onesR sh ∧
+    (transition r o none sh).discount.length = sh.size := by
+  simp [transition, onesR]
+theorem truncation_shape (r : List Rat) (o : O) (sh : RShape) :
+    (truncation r o none sh).reward = r ∧ (truncation r o none sh).discount = onesR sh ∧
+    (truncation r o none sh).discount.length = sh.size := by
+  simp [truncation, onesR]
+/-- with `discount=`: both are passed through, `shape` is ignored -/
+theorem transition_explicit (r : List Rat) (o : O) (d : List Rat) (sh : RShape) :
+    (transition r o (some d) sh).reward = r ∧ (transition r o (some d) sh).discount = d := by
+  simp [transition]
+theorem truncation_explicit (r : List Rat) (o : O) (d : List Rat) (sh : RShape) :
+    (truncation r o (some d) sh).reward = r ∧ (truncation r o (some d) sh).discount = d := by
+  simp [truncation]
+
+/-- every branch of every step expression passes the reward through unchanged -/
+theorem evalBranch_reward (b : Branch) (sh : RShape) (r : List Rat) (o : O) (disc : List Rat) :
+    (evalBranch b sh r o disc).reward = r := by
+  unfold evalBranch; cases b.ctor <;> rfl
+theorem evalStep_reward (s : Shape) (sh : RShape) (terminate truncate : Bool) (r : List Rat) (o : O)
+    (disc : List Rat) (ts : TimeStep O) (h : evalStep s sh terminate truncate r o disc = some ts) :
+    ts.reward = r := by
+  cases s with
+  | unrecognised => simp [evalStep] at h
+  | cond t f =>
+    simp only [evalStep, Option.some.injEq] at h
+    subst h
+    cases terminate <;> simp [evalBranch_reward]
+  | switch4 b0 b1 b2 b3 =>
+    simp only [evalStep, Option.some.injEq] at h
+    subst h
+    cases terminate <;> cases truncate <;> simp [evalBranch_reward]
+
 /-- the protocol theorem for the `lax.cond(done, termination, transition)` shape, with an optional
-explicit discount on the MID branch (Connector) -/
-theorem cond_ok (t f : Branch) (sh : RShape) (hsz : 0 < sh.size) (multi : Bool)
+explicit discount on the MID branch (Connector).  NO hypothesis on the reward. -/
+theorem cond_disc_ok (t f : Branch) (sh : RShape) (hsz : 0 < sh.size) (multi : Bool)
     (hm : multi = true ↔ sh ≠ none)
     (ht : t.ctor = .termination) (hf : f.ctor = .transition) (hts : t.hasShape = multi) (hfs : f.hasShape = multi)
     (htd : t.hasDiscount = false)
-    (done : Bool) (r : List Rat) (o : O) (disc : List Rat) (hr : r.length = sh.size)
+    (done : Bool) (r : List Rat) (o : O) (disc : List Rat)
     (hd : f.hasDiscount = true → disc.length = sh.size ∧ allIn01 disc = true ∧ (done = false → allZero disc = false)) :
-    StepOK sh false (if done then evalBranch t sh r o disc else evalBranch f sh r o disc) = true := by
+    DiscOK sh false (if done then evalBranch t sh r o disc else evalBranch f sh r o disc) = true := by
   have hshape : ∀ b : Bool, b = multi → (if b then sh else none) = sh := by
     intro b hb
     cases b
@@ -41,22 +96,35 @@ theorem cond_ok (t f : Branch) (sh : RShape) (hsz : 0 < sh.size) (multi : Bool)
   · -- MID
     simp only [Bool.false_eq_true, if_false, evalBranch, hf, hshape _ hfs]
     cases hfd : f.hasDiscount
-    · simp [StepOK, transition, hr, onesR, allIn01_ones, allZero_ones _ hsz]
+    · simp [DiscOK, transition, onesR, allIn01_ones, allZero_ones _ hsz]
     · obtain ⟨h1, h2, h3⟩ := hd hfd
-      simp [StepOK, transition, hr, h1, h2, h3 rfl]
+      simp [DiscOK, transition, h1, h2, h3 rfl]
   · -- LAST
     simp only [if_true, evalBranch, ht, hshape _ hts]
-    simp [StepOK, termination, hr, zerosR, allIn01_zeros, allZero_zeros]
+    simp [DiscOK, termination, zerosR, allIn01_zeros, allZero_zeros]
 
-/-- LBF's switch: LAST with non-zero discount happens exactly on truncation without termination -/
-theorem switch4_ok (b0 b1 b2 b3 : Branch) (sh : RShape) (hsz : 0 < sh.size) (multi : Bool)
+/-- … and with a reward of the declared length, the full predicate -/
+theorem cond_ok (t f : Branch) (sh : RShape) (hsz : 0 < sh.size) (multi : Bool)
+    (hm : multi = true ↔ sh ≠ none)
+    (ht : t.ctor = .termination) (hf : f.ctor = .transition) (hts : t.hasShape = multi) (hfs : f.hasShape = multi)
+    (htd : t.hasDiscount = false)
+    (done : Bool) (r : List Rat) (o : O) (disc : List Rat) (hr : r.length = sh.size)
+    (hd : f.hasDiscount = true → disc.length = sh.size ∧ allIn01 disc = true ∧ (done = false → allZero disc = false)) :
+    StepOK sh false (if done then evalBranch t sh r o disc else evalBranch f sh r o disc) = true := by
+  rw [stepOK_iff]
+  refine ⟨?_, cond_disc_ok t f sh hsz multi hm ht hf hts hfs htd done r o disc hd⟩
+  cases done <;> simp [evalBranch_reward, hr]
+
+/-- LBF's switch: LAST with non-zero discount happens exactly on truncation without termination.
+NO hypothesis on the reward. -/
+theorem switch4_disc_ok (b0 b1 b2 b3 : Branch) (sh : RShape) (hsz : 0 < sh.size) (multi : Bool)
     (hm : multi = true ↔ sh ≠ none)
     (h0 : b0.ctor = .transition) (h1 : b1.ctor = .termination) (h2 : b2.ctor = .truncation) (h3 : b3.ctor = .termination)
     (s0 : b0.hasShape = multi) (s1 : b1.hasShape = multi) (s2 : b2.hasShape = multi) (s3 : b3.hasShape = multi)
     (d0 : b0.hasDiscount = false) (d2 : b2.hasDiscount = false)
-    (terminate truncate : Bool) (r : List Rat) (o : O) (disc : List Rat) (hr : r.length = sh.size) :
+    (terminate truncate : Bool) (r : List Rat) (o : O) (disc : List Rat) :
     ∀ ts, evalStep (.switch4 b0 b1 b2 b3) sh terminate truncate r o disc = some ts →
-      StepOK sh true ts = true ∧
+      DiscOK sh true ts = true ∧
       (ts.stepType = .last ↔ (terminate = true ∨ truncate = true)) ∧
       ((ts.stepType = .last ∧ allZero ts.discount = false) ↔ (truncate = true ∧ terminate = false)) := by
   have hshape : ∀ b : Bool, b = multi → (if b then sh else none) = sh := by
@@ -70,8 +138,23 @@ theorem switch4_ok (b0 b1 b2 b3 : Branch) (sh : RShape) (hsz : 0 < sh.size) (mul
   simp only [evalStep, Option.some.injEq] at hts
   subst hts
   cases terminate <;> cases truncate <;>
-    simp [evalBranch, h0, h1, h2, h3, hshape _ s0, hshape _ s1, hshape _ s2, hshape _ s3, d0, d2, StepOK,
-      transition, termination, truncation, hr, onesR, zerosR, allIn01_ones, allIn01_zeros, allZero_ones _ hsz,
+    simp [evalBranch, h0, h1, h2, h3, hshape _ s0, hshape _ s1, hshape _ s2, hshape _ s3, d0, d2, DiscOK,
+      transition, termination, truncation, onesR, zerosR, allIn01_ones, allIn01_zeros, allZero_ones _ hsz,
       allZero_zeros]
+
+theorem switch4_ok (b0 b1 b2 b3 : Branch) (sh : RShape) (hsz : 0 < sh.size) (multi : Bool)
+    (hm : multi = true ↔ sh ≠ none)
+    (h0 : b0.ctor = .transition) (h1 : b1.ctor = .termination) (h2 : b2.ctor = .truncation) (h3 : b3.ctor = .termination)
+    (s0 : b0.hasShape = multi) (s1 : b1.hasShape = multi) (s2 : b2.hasShape = multi) (s3 : b3.hasShape = multi)
+    (d0 : b0.hasDiscount = false) (d2 : b2.hasDiscount = false)
+    (terminate truncate : Bool) (r : List Rat) (o : O) (disc : List Rat) (hr : r.length = sh.size) :
+    ∀ ts, evalStep (.switch4 b0 b1 b2 b3) sh terminate truncate r o disc = some ts →
+      StepOK sh true ts = true ∧
+      (ts.stepType = .last ↔ (terminate = true ∨ truncate = true)) ∧
+      ((ts.stepType = .last ∧ allZero ts.discount = false) ↔ (truncate = true ∧ terminate = false)) := by
+  intro ts hts
+  obtain ⟨a, b⟩ := switch4_disc_ok b0 b1 b2 b3 sh hsz multi hm h0 h1 h2 h3 s0 s1 s2 s3 d0 d2 terminate truncate r o disc ts hts
+  refine ⟨(stepOK_iff _ _ _).2 ⟨?_, a⟩, b⟩
+  rw [evalStep_reward _ _ _ _ _ _ _ _ hts]; exact hr
 
 end Proto
